@@ -4,7 +4,7 @@ func init() {
 	register("C10", &propInfo{
 		Explanation: "KEEP: both decimation criteria return 'removable' only behind the keep-filter (absent, or answered true). GUARDCALL: the vertex removal routine is only reached behind canRemoveVertex. OL: every exported Decimator option is read. SELFKEY: no lookup of a range key in the map being ranged over (the ARAP operator must compare the new constraint set with the cached one). FILL: in the mesh processing files (mesh_ops.go, smooth.go, subdivision.go, deformation.go, decimate.go; 2D and 3D) an output slice made with its final length and filled by index receives an element on every path of every iteration (a skipped store leaves a vertex at the origin).",
 		Trusted:     []string{"go/ssa dominators, edge-deletion reachability", "natural-loop detection of checker/dec_index.go"},
-		Fixtures:    []string{"f"},
+		Fixtures:    []string{"f", "g"},
 		Run: func(c *Ctx) {
 			c.runKeepFilter("KEEP", "model3d", "decCriterion", "canRemoveVertex", "FilterFunc")
 			c.floor("KEEP", 2)
